@@ -80,7 +80,7 @@ def same_group(g, gs):
 
 
 def gen_rules(rng, seq, n_rules, groups=False):
-    """disjoint-site rules: {pattern: mods | [groups]}"""
+    """{pattern: mods | [groups]}; variable rules (groups) have disjoint sites, static rules may overlap"""
     rules, used = {}, set()
     for pat in rng.sample(TARGETS, len(TARGETS)):
         if len(rules) >= n_rules:
@@ -88,8 +88,8 @@ def gen_rules(rng, seq, n_rules, groups=False):
         if is_zero_width_somewhere(seq, pat):
             continue
         s = set(sites_of(seq, pat))
-        if s & used:
-            continue
+        if s & used and (groups or rng.random() < 0.5):
+            continue   # variable rules: disjoint sites; static rules may hit a site twice (both apply, in rule order)
         if not s and rng.random() < 0.7:
             continue
         used |= s
